@@ -37,6 +37,17 @@ def run(ctx):
         c07.linker_models(ctx, c07.FAMILIES)
         cases = c07.gen_programs(ctx, ["types", "consts", "svcs", "mixed"], 0, rng)       # every program of these families
         cases += c07.gen_programs(ctx, ["modules"], 4000 if ctx.quick() else 0, rng)
+        # names and annotations that reach the generator's helpers outside of its templates: an error or a result, no crash
+        odd = ["struct _ { 1: optional i32 v }", "struct __ { 1: optional i32 v }", "service _ { void ping() }", "service S { void _() }",
+               "service S { void f(1: i32 _) }", "struct S { 1: optional i32 _ }", "enum _ { A }", "enum E { _ }", "typedef i32 _", "const i32 _ = 1",
+               'struct Foo { 1: optional string bar } (go.name = "")', 'service S { void f(1: string a (go.name = "")) }',
+               'struct Foo { 1: optional string bar (go.name = "") }', 'enum E { A (go.name = "") }', 'typedef i32 T (go.name = "")',
+               'struct Foo {} (go.name = "__")', "union _u_ { 1: i32 _a_ }\nexception __x { 1: optional i32 a__ }", "union Empty {}", "exception OnlyOpt { 1: optional i32 a }",
+               'struct T { 1: optional i32 a (go.tag = "`") }', 'struct T { 1: optional i32 a (go.tag = "json") }', 'struct T { 1: optional i32 a (go.label = "") }',
+               "service S { void f() }\nservice T extends S {}", "enum E {}\nstruct S { 1: optional E e }", 'struct S { 1: optional set<S> (go.type = "slice") s }',
+               "typedef list<L> L", "typedef map<string, M> M\nstruct S { 1: optional M m }", "struct S { 1: required S s }", "const list<i32> c = []\nconst map<string, list<i32>> m = {}"]
+        for k, body in enumerate(odd):
+            cases.append({"id": "odd-%d" % k, "files": {"/v/a.thrift": body + "\n"}, "nonstrict": False})
         extra = []
         rand_args = ["-builtin", "-corpus", corpus, "-random", "4000" if ctx.quick() else "300000"]
     rows, crashes = vlib.run_driver_batches(ctx, drv, "c08", cases, args=extra, batch=max(20, len(cases) // 32 + 1),
